@@ -40,5 +40,7 @@ a3aa999 C16 ttl0-treated-as-unset
 05870df C16 cname-only-answer-cached-300s
 26cc7b8 C20 pagination-stops-after-first-page
 0b343df C20 duplicate-target-patched-twice
+c365989 C06 inspection-continues-after-passthrough
+1f3f088 C02 bytes-after-extensions-accepted
 LIST
 rm -rf /verif/replays
